@@ -192,11 +192,7 @@ def envelope_map(model: Model, ex, c: str, content) -> Dict[str, str]:
     num = ex.class_tag_number(c)
     fi = ex.dispatch[num]
     cfi = model.functions.get(content.func) if content is not None else model.functions.get(ex.envelope.func)
-    call = None
-    if cfi is not None:
-        for n in walk_no_nested(cfi.node):
-            if isinstance(n, ast.Call) and isinstance(n.func, ast.Name) and n.func.id == "unpack_func":
-                call = n
+    call = dispatch_call(cfi) if cfi is not None else None
     if call is None:
         return out
     params = getattr(res, "lambda_params", None) or (fi.params() if not isinstance(fi.node, ast.Lambda) else [a.arg for a in fi.node.args.args])
@@ -206,16 +202,23 @@ def envelope_map(model: Model, ex, c: str, content) -> Dict[str, str]:
     return out
 
 
+def dispatch_call(fi) -> "ast.Call | None":
+    """The call through a local that holds the selected per-type unpack callable (whatever the local is named)."""
+    stores = {x.id for x in walk_no_nested(fi.node) if isinstance(x, ast.Name) and isinstance(x.ctx, ast.Store)}
+    call = None
+    for n in walk_no_nested(fi.node):
+        if isinstance(n, ast.Call) and isinstance(n.func, ast.Name) and n.func.id in stores and (n.args or n.keywords):
+            call = n
+    return call
+
+
 def ctl_result(model: Model, ex, c: str):
     """Field mapping of the generic control reader for control class c: unpack_func(control_type=, critical=, value=) -> c.unpack -> constructor."""
     import copy
     g = copy.copy(ex.ctl_generic)
     g.field_of_var = {}
     gfi = model.functions[g.func]
-    call = None
-    for n in walk_no_nested(gfi.node):
-        if isinstance(n, ast.Call) and isinstance(n.func, ast.Name) and n.func.id == "unpack_func":
-            call = n
+    call = dispatch_call(gfi)
     if call is None:
         raise AnalysisError("unpack_ldap_control does not call unpack_func")
     for k in call.keywords:
@@ -287,10 +290,11 @@ def post_decode_mutation(model: Model, run: Run) -> None:
                 fld = c.args[1].value if isinstance(c.args[1], ast.Constant) else None
                 ok = (fi.module, fld) in SANCTIONED
                 if ok and fld == "name":
-                    # only under `isinstance(msg, ExtendedResponse) ... and not msg.name`
-                    from .c06 import enclosing_tests
-                    tests = " ".join(norm(t) for t in enclosing_tests(fi.node, c))
-                    ok = "ExtendedResponse" in tests and "not " in tests and ".name" in tests
+                    # only under `isinstance(msg, ExtendedResponse) ... and not msg.name` (as enclosing test or as negated guard clause)
+                    from ..srcmodel import dominating_literals
+                    tgt = norm(c.args[0])
+                    lits = dominating_literals(fi.node, c)
+                    ok = f"not {tgt}.name" in lits and any(l.startswith(f"isinstance({tgt}, ") and "ExtendedResponse" in l for l in lits)
                 run.ob("W14-no-post-decode-mutation", ok, {"function": fi.name, "field": fld})
                 if not ok:
                     run.fail(Finding("W14-no-post-decode-mutation", fq, f"{norm(c)[:80]}", f"{fi.name} overwrites `{fld}` of a decoded value after it was constructed: the decoded message no longer equals the one that was encoded", model.loc(fi.module, c)))
